@@ -304,3 +304,28 @@ func RSABlind(t *rapid.T, n *big.Int) []byte {
 }
 
 func TypeName(typ uint16) string { return fmt.Sprintf("type%d", typ) }
+
+// Adapters for the generic batch issuer's Issuer interface (the repository's own tests use the same shape).
+type Batch1 struct{ I *type1.BasicPrivateIssuer }
+
+func (b Batch1) Evaluate(r tokens.TokenRequest) ([]byte, error) {
+	q, ok := r.(*type1.BasicPrivateTokenRequest)
+	if !ok {
+		return nil, fmt.Errorf("TokenRequest does not match issuer type")
+	}
+	return b.I.Evaluate(q)
+}
+func (b Batch1) TokenKeyID() []byte { return b.I.TokenKeyID() }
+func (b Batch1) Type() uint16       { return type1.BasicPrivateTokenType }
+
+type Batch2 struct{ I *type2.BasicPublicIssuer }
+
+func (b Batch2) Evaluate(r tokens.TokenRequest) ([]byte, error) {
+	q, ok := r.(*type2.BasicPublicTokenRequest)
+	if !ok {
+		return nil, fmt.Errorf("TokenRequest does not match issuer type")
+	}
+	return b.I.Evaluate(q)
+}
+func (b Batch2) TokenKeyID() []byte { return b.I.TokenKeyID() }
+func (b Batch2) Type() uint16       { return type2.BasicPublicTokenType }
